@@ -83,10 +83,17 @@ def apps(cls, rng):
     return []
 
 
-def concretise(cfg, rng):
+UNKNOWN_NAMES = ["UNKNOWN_KEY", "mode", "Mode", "Watchdog_Timeout", "peer_node_port", "MODE ", " MODE", "LOCAL_NODE", "TRANSPORT",
+                 "APPLICATION", "LOCAL_NODE_IP", "PEER_NODE_HOST_NAME", "watchdog_timeout", "", "NAME", 5, None, ("MODE",)]
+
+
+def concretise(cfg, rng, unknown=None):
     d = {}
     for e in cfg:
         k, c = e["key"], e["cls"]
+        if k == "UNKNOWN_KEY":
+            d[unknown if unknown is not None else rng.choice(UNKNOWN_NAMES)] = rng.choice(ANY[k])
+            continue
         if k == "APPLICATIONS":
             d[k] = apps(c, rng)
         elif k in ("LOCAL_NODE_IP_ADDRESS", "PEER_NODE_IP_ADDRESS"):
@@ -206,8 +213,9 @@ def run(rep):
     rep.tlc("Gen_Config", res)
     from bromelia.setup import Diameter
     for i, v in enumerate(vecs):
-        for rpt in range(1 if quick else 3):
-            d = concretise(v["cfg"], rng)
+        has_unknown = any(e["key"] == "UNKNOWN_KEY" for e in v["cfg"])
+        for rpt in range(len(UNKNOWN_NAMES) if has_unknown else (1 if quick else 3)):
+            d = concretise(v["cfg"], rng, UNKNOWN_NAMES[rpt] if has_unknown else None)
             rep.case(json.dumps(v["cfg"]))
             replay = {"kind": "config", "cfg": v["cfg"], "concrete": repr(list(d.items()))}
             judge(rep, v["out"], d, run_convert(dict(d)), replay)
